@@ -572,7 +572,12 @@ class _Interpolator(object):
         """
         if self.input_type == 'meshgrid':
             # Given a meshgrid, the evaluation will be on a ragged array.
-            x = np.asarray(x, dtype=object)
+            # It is filled entry by entry since `np.asarray` tries to
+            # broadcast vectors whose leading axes have equal length.
+            x_in = x
+            x = np.empty(len(x_in), dtype=object)
+            for i, xi in enumerate(x_in):
+                x[i] = np.asarray(xi)
         else:
             x = np.asarray(x)
 
